@@ -411,6 +411,8 @@ class Judge:
 
     def report(self, q, hist, logic, text, cond, groups, what, extra):
         tags = self.tags(q, hist, logic, groups)
+        if re.search(r"\(declare-fun \S+ \([^)]*\bBool\b[^)]*\)", text):
+            tags.append("bool-uf")      # the script uses uninterpreted symbols with Boolean arguments
         sig = "%s:%s:[%s]" % (cond, logic, ",".join(tags))
         rep = dict(script=text, request=sx_str(q["cmd"]), query_index=q["k"], options=q["opts"], tags=tags)
         rep.update(extra)
